@@ -468,6 +468,20 @@ func evalC02(c *Ctx, k skCase, exhaustive bool) error {
 			return err
 		}
 	}
+	// structured extensions: well-formed generic payload headers appended after the SK payload (the chain walker
+	// continues with the SK's next-payload type; non-critical unknown types are skipped)
+	for i, ext := range [][]byte{{0, 0, 0, 4}, {0, 0, 0, 8, 1, 2, 3, 4}, {0, 0, 0, 4, 0, 0, 0, 4}, {0, 0x7f, 0, 5, 9}, {49, 0, 0, 4, 0, 0, 0, 6, 1, 2}, {46, 0, 0, 4}} {
+		x := append(append([]byte(nil), wire...), ext...)
+		if err := try("structured-extension", k, recv, x, hdrs[i%2]); err != nil {
+			return err
+		}
+		// the same with the header length field adjusted, as an attacker would
+		y := append([]byte(nil), x...)
+		binary.BigEndian.PutUint32(y[24:], uint32(len(y)))
+		if err := try("structured-extension", k, recv, y, hdrs[(i+1)%2]); err != nil {
+			return err
+		}
+	}
 	// multi-octet edits
 	for t := 0; t < 12; t++ {
 		b := append([]byte(nil), wire...)
@@ -554,6 +568,9 @@ func runC02(c *Ctx) error {
 	}
 	for i, n := 0, c.N(18, 600); i < n; i++ {
 		k := genSkCase(c.Rng, i)
+		if i%6 == 1 { // empty payload lists (liveness checks): the SK's next-payload field is 0
+			k.m = L(A("msg"), genHeader(c.Rng), L())
+		}
 		if err := evalC02(c, k, i < c.N(2, 40)); err != nil {
 			return err
 		}
